@@ -876,6 +876,9 @@ func (r *runningStep) provideEnablingInput(input map[string]any) error {
 		enabled = unserializedEnabled.(bool)
 	}
 	r.enabledInputAvailable = true
+	if r.state == step.RunningStepStateWaitingForInput && r.currentStage == StageIDEnabling {
+		r.state = step.RunningStepStateRunning
+	}
 	r.enabledInput <- enabled
 	verifhook.Emit("SProv", "obj", r, "stage", "enabling", "ok", true, "val", enabled, "state", string(r.state))
 	return nil
@@ -910,6 +913,9 @@ func (r *runningStep) provideStartingInput(input map[string]any) error {
 
 	// Make sure we transition the state before unlocking so there are no race conditions.
 	r.runInputAvailable = true
+	if r.state == step.RunningStepStateWaitingForInput && r.currentStage == StageIDStarting {
+		r.state = step.RunningStepStateRunning
+	}
 
 	// Unlock before passing the data over the channel to prevent a deadlock.
 	// The other end of the channel needs to be unlocked to read the data.
@@ -1223,7 +1229,12 @@ func (r *runningStep) enableStage() (bool, bool) {
 	previousStage := string(r.currentStage)
 	r.currentStage = StageIDEnabling
 	enabledInputAvailable := r.enabledInputAvailable
-	r.state = step.RunningStepStateWaitingForInput
+	if enabledInputAvailable {
+		// The input is already there, so the step is not waiting for anyone.
+		r.state = step.RunningStepStateRunning
+	} else {
+		r.state = step.RunningStepStateWaitingForInput
+	}
 	verifhook.Emit("SSet", "obj", r, "stage", string(r.currentStage), "state", string(r.state))
 	r.lock.Unlock()
 
